@@ -1320,6 +1320,8 @@ class Scheduler:
                     curr_lrs.append(lr)
                     base_mem_usage[lr.start_time : lr.end_time + 1] -= lr.size
                     break
+        # What cannot be moved out of fast storage (e.g. subgraph inputs and outputs) may exceed the limit on its own
+        fixed_mem_usage = base_mem_usage.copy()
         competing_lrs = []
         competing_tens_access = {}
 
@@ -1430,7 +1432,10 @@ class Scheduler:
                 competing_tens_access,
                 self.evicted_fms,
             )
-        assert max(max_mem_usage) <= staging_limit, "Allocation exceeds staging limit"
+        # Everything that was kept in fast storage fits: the limit is only exceeded where the fixed usage exceeds it
+        assert all(
+            usage <= max(staging_limit, fixed) for usage, fixed in zip(max_mem_usage, fixed_mem_usage)
+        ), "Allocation exceeds staging limit"
 
     def print_schedule(self, schedule: Schedule):
         print(f"Schedule: '{schedule.name}'")
